@@ -52,13 +52,6 @@ Definition margin_sum (a : aitem) : f32 :=
 Definition dec_avail (k v : Z) : avail_space f32 :=
   match k with 0 => MaxContentA | 1 => MinContentA | _ => Definite (f_of_bits v) end.
 
-(* GridItem::spanned_fixed_track_limit *)
-Definition spanned_fixed_track_limit (inner : option f32) (it : item f32) (tracks : list (track f32)) : option f32 :=
-  let sl := item_slice it tracks in
-  if forallb (fun t => match definite_value inner (maxf t) with Some _ => true | None => false end) sl
-  then Some (fsum (map (fun t => match definite_value inner (maxf t) with Some v => v | None => zero end) sl))
-  else None.
-
 Record axis_setup := { as_counts : track_counts; as_tracks : list (track f32); as_items : list (item f32);
                        as_sizes : list f32 }.
 
@@ -76,26 +69,13 @@ Definition setup_axis (template : list (tsf f32)) (autos : list (nrt f32)) (gap 
   let tracks0 := initialize_grid_tracks counts template autos gap has_items in
   let mk := fun (idx : nat) (sa : Z * aitem) =>
               let '(s, a) := sa in
-              let st := Z.to_nat (2 * (s + neg)) in
-              let en := Z.to_nat (2 * (s + neg + a_span a)) in
-              let probe := mk_item idx s (Z.to_nat (a_span a)) st en false false (a_scroll a) (margin_sum a) in
-              let sl := item_slice probe tracks0 in
-              mk_item idx s (Z.to_nat (a_span a)) st en (existsb is_flexible sl) (existsb has_intrinsic_sizing_function sl)
-                      (a_scroll a) (margin_sum a) in
+              mk_axis_item idx s (Z.to_nat (s + neg)) (Z.to_nat (a_span a)) (a_scroll a) (margin_sum a) tracks0 in
   let items := map (fun p => mk (fst p) (snd p)) (combine (seq 0 (length aitems)) (combine oz aitems)) in
   Build_axis_setup counts tracks0 items (map a_size aitems).
 
-(* the oracle for fixed-size leaves *)
-Definition leaf_contrib (inner : option f32) (s : axis_setup) (it : item f32) (k : ckind) : f32 :=
-  let size := nth (it_id it) (as_sizes s) zero in
-  match k with
-  | KMinContent | KMaxContent => size
-  | KMinimum => match spanned_fixed_track_limit inner it (as_tracks s) with Some l => fmin size l | None => size end
-  end.
-
 Definition size_axis (s : axis_setup) (avail : avail_space f32) (inner : option f32) (align : align_content)
            (items : list (item f32)) (tracks : list (track f32)) : list (track f32) :=
-  track_sizing_algorithm_full (leaf_contrib inner s) None None (is_stretch align) avail inner items tracks.
+  track_sizing_algorithm_full (leaf_contrib inner (as_tracks s) (as_sizes s)) None None (is_stretch align) avail inner items tracks.
 
 (* whether min_content_contribution_cached was evaluated for the item during a sizing pass of its axis (decides the
    re-run of compute_grid_layout: `Some(new) != item.min_content_contribution_cache`) *)
